@@ -112,6 +112,7 @@ func c03One(x poly.Sequence, mode int, viaFile bool, emit func(interface{})) {
 
 func c03Record(tier string, seed int64, emit func(interface{})) {
 	rng := rand.New(rand.NewSource(seed))
+	gbLongTokens = true
 	// S->I part: every (record, layout) the specification enumerated in C01_MC, as parsed image and as assembled structure
 	if path := os.Getenv("C03_CASES"); path != "" {
 		f, err := os.Open(path)
